@@ -68,6 +68,12 @@ def apply_op(B, m, op, i, C, D, ubm=None):
         other.variances = B.arr(tag + "ov", (C, D), pos=True)
         other.load(B.h5file(path, "r"))
         m = other
+    elif op == "redim":
+        # re-dimension the machine by assignment: variances (and floors) of another feature size, then means
+        D2 = D + 1
+        m.variance_thresholds = B.real(tag + "t", pos=True)
+        m.variances = B.arr(tag + "v", (C, D2), pos=True)
+        m.means = B.arr(tag + "m", (C, D2))
     elif op == "init-gaussians":
         m.initialize_gaussians()
     else:
@@ -91,7 +97,8 @@ def sc_history(B, C, D, ops, kind="ml", ctor="plain"):
         m = gmm.GMMMachine(C, trainer="map", ubm=ubm, map_relevance_factor=B.real("r", pos=True))
     for i, op in enumerate(ops):
         m = apply_op(B, m, op, i, C, D, ubm)
-    # observe
+    # observe (the feature size is whatever the machine now has)
+    D = int(m.means.shape[1])
     X = B.arr("x", (2, D))
     w, mu, v, thr = m.weights, m.means, m.variances, m.variance_thresholds
     P = dict(C=C, D=D, w=[w[c] for c in range(C)], mu=[[mu[c, d] for d in range(D)] for c in range(C)], v=[[v[c, d] for d in range(D)] for c in range(C)])
@@ -133,6 +140,13 @@ def sc_default(B, C):
     return o
 
 
+def job_redim(P, C, D):
+    for pre in ((), ("read",), ("v",), ("thr-vector",)):
+        for post in ((), ("read",), ("deepcopy",), ("w",)):
+            seq = pre + ("redim",) + post
+            P.run("-".join(seq), sc_history, dict(C=C, D=D, ops=seq, kind="ml"), validate=1 if not post else 0)
+
+
 def job_ctor(P, C, D):
     for c in (1, 2, 3, 5):
         P.run("default-weights-%d" % c, sc_default, dict(C=c), validate=1)
@@ -151,4 +165,5 @@ def jobs(tier):
         for first in MAP_OPS:
             out.append(("map@C%dD%d-%s" % (C, D, first), "job_hist", dict(C=C, D=D, first=first, kind="map", ops=MAP_OPS, length=length)))
         out.append(("ctor@C%dD%d" % (C, D), "job_ctor", dict(C=C, D=D)))
+        out.append(("redim@C%dD%d" % (C, D), "job_redim", dict(C=C, D=D)))
     return out
